@@ -54,6 +54,9 @@ class HistoryMachine(RuleBasedStateMachine):
 
     def _exc(self, e):
         origin, where, tb = triage_exception(e)
+        if origin == 'library' and type(e).__name__ == 'LinAlgError' and where and where.startswith('skfem/element/element_global.py'):
+            self.dead = True
+            return
         if origin == 'library':
             self.ctx.fail('exception', tb, exc=type(e).__name__, where=where)
         else:
